@@ -86,6 +86,12 @@ pub fn seeds() -> Vec<Seed> {
     { let mut d = chunk(b"MVER", &18u32.to_le_bytes()); d.extend(chunk(b"MPHD", &[0u8; 32])); let mut main = vec![0u8; 64 * 64 * 8]; for k in [0usize, 65, 4095] { main[k * 8] = 1; } d.extend(chunk(b"MAIN", &main)); d.extend(chunk(b"MWMO", b"world\\wmo\\a.wmo\0")); d.extend(chunk(b"MODF", &[0u8; 64])); v.push(Seed { fmt: "wdt", name: "wdt".into(), bytes: d }); }
     { let mut d = chunk(b"MVER", &18u32.to_le_bytes()); d.extend(chunk(b"MWMO", b"")); d.extend(chunk(b"MWID", b"")); d.extend(chunk(b"MODF", b"")); let maof_pos = d.len(); d.extend(chunk(b"MAOF", &vec![0u8; 4096 * 4]));
       let off = d.len() as u32; d.extend(chunk(b"MARE", &vec![1u8; 545 * 2])); d.extend(chunk(b"MAHO", &[0u8; 32])); d[maof_pos + 8..maof_pos + 12].copy_from_slice(&off.to_le_bytes()); v.push(Seed { fmt: "wdl", name: "wdl".into(), bytes: d }); }
+    // (attributes) special files on their own, every flag combination x block counts around the bit-array byte boundary
+    for flags in [1u32, 2, 4, 8, 9, 12, 15] { for nblk in [1usize, 8, 9] {
+        let mut d = vec![]; d.extend_from_slice(&100u32.to_le_bytes()); d.extend_from_slice(&flags.to_le_bytes());
+        if flags & 1 != 0 { d.extend(rng.bytes(4 * nblk)); } if flags & 2 != 0 { d.extend(rng.bytes(8 * nblk)); } if flags & 4 != 0 { d.extend(rng.bytes(16 * nblk)); } if flags & 8 != 0 { d.extend(rng.bytes(nblk.div_ceil(8))); }
+        v.push(Seed { fmt: "attr", name: format!("flags{flags}-blocks{nblk}"), bytes: d });
+    } }
     v
 }
 
@@ -102,6 +108,7 @@ pub fn drive(fmt: &str, data: &[u8], scratch: &std::path::Path) -> &'static str 
         "adt" => if wow_adt::parse_adt(&mut Cursor::new(data)).is_ok() { "ok" } else { "err" },
         "wmo" => { let a = wow_wmo::parse_wmo(&mut Cursor::new(data)).is_ok(); let b = wow_wmo::WmoParser::new().parse_root(&mut Cursor::new(data)).is_ok(); if a || b { "ok" } else { "err" } }
         "blp" => match wow_blp::parser::parse_blp(data) { Err(_) => "err", Ok(img) => { let _ = wow_blp::convert::blp_to_image(&img, 0); "ok" } },
+        "attr" => { let b = bytes::Bytes::copy_from_slice(data); let mut any = false; for bc in [0usize, 1, 2, 7, 8, 9, 15, 16, 17, 100] { any |= wow_mpq::special_files::Attributes::parse(&b, bc).is_ok(); } if any { "ok" } else { "err" } }
         "dbc" => match wow_cdbc::DbcParser::parse_bytes(data) { Err(_) => "err", Ok(p) => { let _ = p.parse_records(); "ok" } },
         "wdt" => if wow_wdt::WdtReader::new(Cursor::new(data), wow_wdt::version::WowVersion::WotLK).read().is_ok() { "ok" } else { "err" },
         "wdl" => if wow_wdl::parser::WdlParser::new().parse(&mut Cursor::new(data)).is_ok() { "ok" } else { "err" },
@@ -118,6 +125,7 @@ pub fn mutations(s: &Seed, seed: u64, thorough: bool) -> Vec<(String, Vec<u8>)> 
     // prefixes
     let pstep = if thorough { 1 } else { (n / 48).max(1) };
     let mut k = 0; while k < n { out.push((format!("prefix {k}"), b[..k].to_vec())); k += if k < 256 && thorough { 1 } else { pstep }; }
+    for k in 1..=8usize.min(n) { out.push((format!("tail-cut {k}"), b[..n - k].to_vec())); }
     // boundary values in every aligned dword of the first 1 KiB, and in every chunk-size field of chunked files
     let vals = |len: usize| -> Vec<u32> { vec![0, 1, 0x7FFF_FFFF, 0x8000_0000, 0xFFFF_FFFF, (len as u32).wrapping_sub(1), len as u32, (len as u32).wrapping_add(1)] };
     let mut fields: Vec<usize> = (0..n.min(1024) / 4).map(|i| i * 4).collect();
@@ -131,7 +139,7 @@ pub fn mutations(s: &Seed, seed: u64, thorough: bool) -> Vec<(String, Vec<u8>)> 
     for (fi, &o) in fields.iter().enumerate() { if o + 4 > n || (fi as u64 + seed) % take_every != 0 { continue; } for v in vals(n) { let mut m = b.clone(); m[o..o + 4].copy_from_slice(&v.to_le_bytes()); if m != *b { out.push((format!("dword@{o}={v:#x}"), m)); } } }
     // pairs over the first 8 dwords (two hostile header fields at once)
     let hv = [0u32, 1, 0xFFFF_FFFF, n as u32, 0x200];
-    for i in 0..8usize.min(n / 4) { for j in (i + 1)..8usize.min(n / 4) { for &x in &hv { for &y in &hv { if !thorough && (i + j + x as usize + y as usize + seed as usize) % 4 != 0 { continue; } let mut m = b.clone(); m[i * 4..i * 4 + 4].copy_from_slice(&x.to_le_bytes()); m[j * 4..j * 4 + 4].copy_from_slice(&y.to_le_bytes()); out.push((format!("dwords@{},{}={x:#x},{y:#x}", i * 4, j * 4), m)); } } } }
+    for i in 0..8usize.min(n / 4) { for j in (i + 1)..8usize.min(n / 4) { for &x in &hv { for &y in &hv { if !thorough && !matches!(s.fmt, "dbc" | "attr" | "patch" | "skin") && (i + j + x as usize + y as usize + seed as usize) % 4 != 0 { continue; } let mut m = b.clone(); m[i * 4..i * 4 + 4].copy_from_slice(&x.to_le_bytes()); m[j * 4..j * 4 + 4].copy_from_slice(&y.to_le_bytes()); out.push((format!("dwords@{},{}={x:#x},{y:#x}", i * 4, j * 4), m)); } } } }
     // chunk reordering / duplication / deletion
     if matches!(s.fmt, "adt" | "wmo" | "wdt" | "wdl") { let mut cs: Vec<(usize, usize)> = vec![]; let mut p = 0usize; while p + 8 <= n { let sz = u32::from_le_bytes([b[p + 4], b[p + 5], b[p + 6], b[p + 7]]) as usize; if p + 8 + sz > n { break; } cs.push((p, p + 8 + sz)); p += 8 + sz; }
         for i in 0..cs.len().min(14) { let mut del = vec![]; let mut dup = vec![]; for (k, c) in cs.iter().enumerate() { if k != i { del.extend(&b[c.0..c.1]); } dup.extend(&b[c.0..c.1]); if k == i { dup.extend(&b[c.0..c.1]); } } out.push((format!("delete chunk {i}"), del)); out.push((format!("duplicate chunk {i}"), dup));
